@@ -127,8 +127,19 @@ def is_S(node: ast.AST, name: Optional[str] = None) -> bool:
     )
 
 
+_U_CACHE: Dict[int, Tuple[ast.AST, str]] = {}
+
+
 def U(node: ast.AST) -> str:
-    return ast.unparse(node)
+    """ast.unparse with a cache (provenance trees are immutable and shared)."""
+    hit = _U_CACHE.get(id(node))
+    if hit is not None and hit[0] is node:
+        return hit[1]
+    text = ast.unparse(node)
+    if len(_U_CACHE) > 400000:
+        _U_CACHE.clear()
+    _U_CACHE[id(node)] = (node, text)
+    return text
 
 
 MUTATORS = {
@@ -241,8 +252,19 @@ class _Expander(Rewriter):
 _GLOBAL_COUNTER = [10_000_000]
 
 
+_EXPAND_CACHE: Dict[Tuple[int, int], Tuple[ast.AST, dict, ast.AST]] = {}
+
+
 def expand(expr: ast.AST, vars_: Dict[str, ast.expr], counter=None) -> ast.AST:
-    return _Expander(vars_, counter or _GLOBAL_COUNTER).visit(expr)
+    key = (id(expr), id(vars_))
+    hit = _EXPAND_CACHE.get(key)
+    if hit is not None and hit[0] is expr and hit[1] is vars_:
+        return hit[2]
+    out = _Expander(vars_, counter or _GLOBAL_COUNTER).visit(expr)
+    if len(_EXPAND_CACHE) > 400000:
+        _EXPAND_CACHE.clear()
+    _EXPAND_CACHE[key] = (expr, vars_, out)
+    return out
 
 
 def iter_bindings(target: ast.AST, it: ast.expr, tag: ast.Constant):
@@ -358,7 +380,10 @@ class Interp:
         non_none: Optional[Callable[[ast.expr], bool]] = None,
         prune: bool = True,
         loop_iters: Optional[Dict[int, int]] = None,
+        max_paths: int = MAX_PATHS,
     ):
+        self.max_paths = max_paths
+        self.work = 0
         self.max_iter = max_iter
         self.split_ifexp = split_ifexp
         self.assert_paths = assert_paths
@@ -390,8 +415,9 @@ class Interp:
         return paths
 
     def _cap(self, results):
-        if len(results) > MAX_PATHS:
-            raise TooManyPaths(f"more than {MAX_PATHS} paths")
+        self.work += len(results)
+        if len(results) > self.max_paths or self.work > 25 * self.max_paths:
+            raise TooManyPaths(f"more than {self.max_paths} paths")
 
     # -- blocks and statements ---------------------------------------------
 
@@ -660,6 +686,16 @@ class Interp:
     def evaluate(self, st: State, test) -> Optional[bool]:
         if isinstance(test, ast.Constant):
             return bool(test.value)
+        if (
+            isinstance(test, ast.Subscript)
+            and isinstance(test.slice, ast.Constant)
+            and test.slice.value == "OWNDATA"
+            and isinstance(test.value, ast.Attribute)
+            and test.value.attr == "flags"
+            and self.non_none is not None
+            and self.non_none(test.value.value)
+        ):
+            return True  # constructor / alignment results own their buffer
         if isinstance(test, ast.Compare) and len(test.ops) == 1 and isinstance(test.ops[0], ast.Is):
             left, right = test.left, test.comparators[0]
             if isinstance(right, ast.Constant) and right.value is None:
